@@ -327,6 +327,12 @@ def patchStableRS (w : World) (f : Fault) (n : Nat) : World × Bool × Nat :=
     if canWrite f n then ({ w with rss := patchFirstRS w.rss }, true, n + 1) else (w, false, n)
   else (w, true, n)
 
+/-- the second step of `Initialize`: only the Deployment control patches a stable ReplicaSet -/
+def stableRSStep (kind : Kind) (w : World) (f : Fault) (n : Nat) : World × Bool × Nat :=
+  match kind with
+  | .deployment => patchStableRS w f n
+  | .cloneSet => (w, true, n)
+
 /-- `util.DeploymentMaxUnavailable` -/
 def deployMaxUnavailable (d : Workload) : Out Int :=
   if d.stype ≠ .expected then .val 0 else
@@ -381,7 +387,7 @@ def cpInitialize (kind : Kind) (w : World) (br : BR) (f : Fault) : Out CallOut :
       | .panic => .panic
       | .val (w1, false, n) => .val ⟨w1, .err, n, none⟩
       | .val (w1, true, n) =>
-        match (if kind = .deployment then patchStableRS w1 f n else (w1, true, n)) with
+        match stableRSStep kind w1 f n with
         | (w2, false, n2) => .val ⟨w2, .err, n2, none⟩
         | (w2, true, n2) =>
           match getSetting wl.saved with
@@ -420,6 +426,21 @@ def finishHPA (w : World) (f : Fault) (n : Nat) : Out CallOut :=
   | .val (w', true, n') => .val ⟨w', .ok, n', none⟩
   | .val (w', false, n') => .val ⟨w', .err, n', none⟩
 
+/-- the wait of `Finalize`: the Deployment control evaluates `waitAllUpdatedAndReady` on `d` (the object the patch
+    response was decoded into, or still empty); the CloneSet control compares the status of the object it read
+    when it was built -/
+def waitStep (kind : Kind) (wl d : Workload) : Out Bool :=
+  match kind with
+  | .deployment => waitAllUpdatedAndReady d
+  | .cloneSet => .val (decide (wl.status.ready = wl.status.updatedReady))
+
+/-- the tail of both `Finalize`s once the settings are restored (world `w1`, `n` writes done): wait, then `RestoreHPA` -/
+def finishWait (kind : Kind) (wl d : Workload) (w1 : World) (f : Fault) (n : Nat) : Out CallOut :=
+  match waitStep kind wl d with
+  | .panic => .panic
+  | .val false => .val ⟨w1, .retry, n, none⟩
+  | .val true => finishHPA w1 f n
+
 /-- `realBatchControlPlane.Finalize` -/
 def cpFinalize (kind : Kind) (w : World) (br : BR) (f : Fault) : Out CallOut :=
   if f.get then .val ⟨w, .err, 0, none⟩ else
@@ -431,33 +452,15 @@ def cpFinalize (kind : Kind) (w : World) (br : BR) (f : Fault) : Out CallOut :=
     | some _ =>
       if br.partitioned then .val ⟨w, .ok, 0, none⟩ else   -- "continuous release is not supported yet"
       if restored wl then
-        match kind with
-        | .deployment =>
-          -- `d` is still the empty object: the wait is evaluated on it
-          match waitAllUpdatedAndReady emptyDeployment with
-          | .panic => .panic
-          | .val false => .val ⟨w, .retry, 0, none⟩
-          | .val true => finishHPA w f 0
-        | .cloneSet =>
-          if wl.status.ready ≠ wl.status.updatedReady then .val ⟨w, .retry, 0, none⟩
-          else finishHPA w f 0
+        -- no patch; the Deployment's `d` is still the empty object
+        finishWait kind wl emptyDeployment w f 0
       else
         match getSetting wl.saved with
         | none => .val ⟨w, .err, 0, none⟩
         | some s =>
           if ¬ canWrite f 0 then .val ⟨w, .err, 0, none⟩ else
-          let wl' := finalizePatch kind s wl
-          let w1 := { w with wl := some wl' }
-          match kind with
-          | .deployment =>
-            -- `d` now holds the patched object as the API server returned it
-            match waitAllUpdatedAndReady wl' with
-            | .panic => .panic
-            | .val false => .val ⟨w1, .retry, 1, none⟩
-            | .val true => finishHPA w1 f 1
-          | .cloneSet =>
-            if wl.status.ready ≠ wl.status.updatedReady then .val ⟨w1, .retry, 1, none⟩
-            else finishHPA w1 f 1
+          -- the Deployment's `d` now holds the patched object as the API server returned it
+          finishWait kind wl (finalizePatch kind s wl) { w with wl := some (finalizePatch kind s wl) } f 1
 
 inductive Op where
   | init | upgrade | fin
